@@ -728,7 +728,7 @@ func TestIntakeLeavesNoTrace(t *testing.T) {
 		n := rapid.IntRange(1, 10).Draw(t, "calls")
 		refusedThenAccepted, refused := false, false
 		for i := 0; i < n; i++ {
-			kind := rapid.SampledFrom([]string{"valid-create", "valid-update", "valid-update", "valid-deactivate", "invalid", "deactivated-did", "unknown-did", "create-failing-patch", "create-empty-document"}).Draw(t, "callKind")
+			kind := rapid.SampledFrom([]string{"valid-create", "valid-update", "valid-update", "valid-deactivate", "invalid", "deactivated-did", "unknown-did", "create-failing-patch", "create-empty-document", "create-key-material-mismatch"}).Draw(t, "callKind")
 			s := IntakeStep{Kind: kind}
 			mk := map[string]interface{}{fmt.Sprintf("m%d", i): "v"}
 			switch kind {
@@ -741,6 +741,17 @@ func TestIntakeLeavesNoTrace(t *testing.T) {
 				// valid patches that leave the document empty: intake refuses it
 				cr := &asm.Create{Code: code, RecoveryCommit: asm.Commit(keys.Get(kt, "c15n", 2*i), code),
 					Delta: asm.Delta(asm.Commit(keys.Get(kt, "c15n", 2*i+1), code), []interface{}{map[string]interface{}{"action": "remove-public-keys", "ids": []interface{}{"k1"}}})}
+				s.Request = cr.Bytes()
+			case "create-key-material-mismatch":
+				// a key whose type demands other key material than its JWK holds (an Ed25519 verification key with a
+				// P-256 or a 3-byte OKP JWK): whether intake refuses it or accepts it, it must not do both
+				jwk := rapid.SampledFrom([]interface{}{
+					map[string]interface{}{"kty": "EC", "crv": "P-256", "x": "urgvYcEe6u3JFGEdiXafvK8jwdJB52aOHBVQef3MFOk", "y": "UUJv4kE49CaRoSvgi9QI7V5J1pSqIUKWGoyPHEZ400s"},
+					map[string]interface{}{"kty": "OKP", "crv": "Ed25519", "x": "AAAA"},
+				}).Draw(t, "foreignJwk")
+				key := map[string]interface{}{"id": "k1", "type": rapid.SampledFrom([]string{"Ed25519VerificationKey2018", "Ed25519VerificationKey2020"}).Draw(t, "edType"), "purposes": []interface{}{"authentication"}, "publicKeyJwk": jwk}
+				cr := &asm.Create{Code: code, RecoveryCommit: asm.Commit(keys.Get(kt, "c15n", 2*i), code),
+					Delta: asm.Delta(asm.Commit(keys.Get(kt, "c15n", 2*i+1), code), []interface{}{map[string]interface{}{"action": "add-public-keys", "publicKeys": []interface{}{key}}})}
 				s.Request = cr.Bytes()
 			case "valid-update":
 				d := dids[rapid.IntRange(0, 1).Draw(t, "did")]
@@ -761,7 +772,7 @@ func TestIntakeLeavesNoTrace(t *testing.T) {
 			case 1:
 				s.FailUnpub = true
 			}
-			bad := s.FailQueue || s.FailUnpub || kind == "invalid" || kind == "deactivated-did" || kind == "unknown-did" || kind == "create-failing-patch" || kind == "create-empty-document"
+			bad := s.FailQueue || s.FailUnpub || kind == "invalid" || kind == "deactivated-did" || kind == "unknown-did" || kind == "create-failing-patch" || kind == "create-empty-document" || kind == "create-key-material-mismatch"
 			if refused && !bad {
 				refusedThenAccepted = true
 			}
